@@ -43,7 +43,7 @@ from vf import env as venv
 from vf.core import Case, Ob
 from vf.fpx import FCase, FOb, FInputs
 from vf.sym import S, SI
-from vf.tsym import st, Opaque, exact_floats
+from vf.tsym import st, Opaque, exact_floats, congruence_axioms
 
 from checks import c13 as _c13
 
@@ -125,6 +125,17 @@ class _User:
         self.l = Opaque("l", lambda t: 1.0 + 0.25 * t)
         self.sx, self.sz, self.sm = inp.const(SX), inp.const(SZ), inp.const(SM)
 
+    def all(self):
+        return [self.h, self.g, self.gam, self.l] + list(getattr(self, "extra", ()))
+
+    def take(self):
+        """time arguments the user callables received since the last take()"""
+        out = {}
+        for f in (self.h, self.g, self.gam, self.l) + tuple(getattr(self, "extra", ())):
+            out[f.name] = [a[0] for a in f.calls]
+            f.calls = []
+        return out
+
     def system(self, shift):
         def H(t):
             t = t - shift
@@ -138,6 +149,39 @@ class _User:
             return _scale(self.sz, self.h(t)) + _scale(self.sx, self.g(t) * a)
         return oqupy.TimeDependentSystemWithField(H, gammas=[lambda t: self.gam(t - shift)],
                                                   lindblad_operators=[lambda t: _scale(self.sm, self.l(t - shift))])
+
+
+def _assume_congruence(inp, *ops):
+    """opaque functions are functions: equal arguments -> equal values (side condition of every query)"""
+    if not inp.symbolic:
+        return
+    ops = list(ops)
+    if isinstance(system_mod.expm, Opaque):
+        ops.append(system_mod.expm)
+    for op in ops:
+        for ax in congruence_axioms(op):
+            inp.assume(ax)
+
+
+def _trace_obs(ta, tb):
+    """cheap (linear) obligations first: every user callable is called equally often and receives the same
+    shifted-back time argument in both runs"""
+    obs = []
+    for name in ta:
+        a, b = ta[name], tb[name]
+        obs.append(Ob.holds("%s: same number of calls in both runs" % name, len(a) == len(b), key="trace"))
+        for i in range(min(len(a), len(b))):
+            obs.append(Ob.eq("%s call %d: same time argument after shifting back" % (name, i), b[i], a[i], key="trace"))
+    return obs
+
+
+class _RecControl(Control):
+    """the real Control; get_controls additionally logs what it returned"""
+
+    def get_controls(self, step, dt=None, start_time=0.0):
+        out = super().get_controls(step, dt=dt, start_time=start_time)
+        self.__dict__.setdefault("log", []).append((step,) + tuple(out))
+        return out
 
 
 def _zero(inp):
@@ -161,12 +205,17 @@ class Propagators(_Base):
         with exact_floats():
             pa = u.system(_zero(inp)).get_propagators(dt, start, lim, 1e-8)
             pb = u.system(tau).get_propagators(dt, start + tau, lim, 1e-8)
-            obs = []
+            u.take()
+            ra = [pa(k) for k in range(self.N)]
+            ta = u.take()
+            rb = [pb(k) for k in range(self.N)]
+            obs = _trace_obs(ta, u.take())
             for k in range(self.N):
-                a1, a2 = pa(k)
-                b1, b2 = pb(k)
+                a1, a2 = ra[k]
+                b1, b2 = rb[k]
                 obs += [Ob.eq("step %d first half propagator" % k, b1, a1, key="propagator"),
                         Ob.eq("step %d second half propagator" % k, b2, a2, key="propagator")]
+        _assume_congruence(inp, *u.all())
         return obs
 
 
@@ -187,13 +236,18 @@ class FieldPropagators(_Base):
         with exact_floats():
             pa = u.field_system(_zero(inp)).get_propagators(dt, start, lim, 1e-8)
             pb = u.field_system(tau).get_propagators(dt, start + tau, lim, 1e-8)
-            obs = []
+            u.take()
+            fld = [(inp.cplx("a%d" % k), inp.cplx("da%d" % k)) for k in range(self.N)]
+            ra = [pa(k, *fld[k]) for k in range(self.N)]
+            ta = u.take()
+            rb = [pb(k, *fld[k]) for k in range(self.N)]
+            obs = _trace_obs(ta, u.take())
             for k in range(self.N):
-                a, da = inp.cplx("a%d" % k), inp.cplx("da%d" % k)
-                a1, a2 = pa(k, a, da)
-                b1, b2 = pb(k, a, da)
+                a1, a2 = ra[k]
+                b1, b2 = rb[k]
                 obs += [Ob.eq("step %d first half propagator" % k, b1, a1, key="propagator"),
                         Ob.eq("step %d second half propagator" % k, b2, a2, key="propagator")]
+        _assume_congruence(inp, *u.all())
         return obs
 
 
@@ -216,20 +270,32 @@ class ComputeDynamics(_Base):
         C1 = inp.arr("C1", (4, 4))
         C2 = inp.arr("C2", (4, 4))
         rho0 = inp.arr("r", (2, 2))
-        out = []
+        out, traces, logs = [], [], []
         with exact_floats():
             for shift in (_zero(inp), tau):
-                ctrl = Control(2)
+                ctrl = _RecControl(2)
                 ctrl.add_single(tc1 + shift, C1, post=False)
                 ctrl.add_single(tc2 + shift, C2, post=True)
-                dyn = sd.compute_dynamics(u.system(shift), initial_state=rho0, dt=dt, num_steps=self.N, start_time=start + shift,
+                system = u.system(shift)
+                u.take()
+                dyn = sd.compute_dynamics(system, initial_state=rho0, dt=dt, num_steps=self.N, start_time=start + shift,
                                           control=ctrl, subdiv_limit=None, progress_type="silent")
+                traces.append(u.take())
+                logs.append(ctrl.log)
                 out.append((list(dyn._times), list(dyn._states)))
         (ta, sa), (tb, sb) = out
-        obs = [Ob.holds("same number of states", len(ta) == len(tb) == self.N + 1, key="len")]
+        obs = _trace_obs(*traces)
+        obs.append(Ob.holds("controls queried for the same steps", [l[0] for l in logs[0]] == [l[0] for l in logs[1]], key="trace"))
+        for la, lb in zip(*logs):
+            for nm, x, y in (("pre", la[1], lb[1]), ("post", la[2], lb[2])):
+                obs.append(Ob.holds("step %d: %s control applied in both runs or in neither" % (la[0], nm), (x is None) == (y is None), key="controls"))
+                if x is not None and y is not None:
+                    obs.append(Ob.eq("step %d: same %s control" % (la[0], nm), y, x, key="controls"))
+        obs.append(Ob.holds("same number of states", len(ta) == len(tb) == self.N + 1, key="len"))
         for k in range(min(len(ta), len(tb))):
             obs.append(Ob.eq("times[%d] shifted by exactly tau" % k, tb[k], ta[k] + tau, key="times"))
             obs.append(Ob.eq("state %d unchanged" % k, sb[k], sa[k], key="states"))
+        _assume_congruence(inp, *u.all())
         return obs
 
 
@@ -245,23 +311,28 @@ class ComputeDynamicsWithField(_Base):
     def run(self, inp):
         start, tau, dt = self.times(inp)
         u = _User(inp)
-        f = Opaque("eom", lambda t, r, a: (0.1 + 0.25 * t) * r - 0.5 * a, cplx=True)
+        f = Opaque("eom", lambda t, r, a: (0.1 + 0.25 * t) * r - 0.5 * a + 0.125 * t * t, cplx=True)
+        u.extra = (f,)
         rho0 = inp.arr("r", (2, 2))
         a0 = inp.cplx("a0")
-        out = []
+        out, traces = [], []
         with exact_floats():
             for shift in (_zero(inp), tau):
                 mfs = oqupy.MeanFieldSystem([u.field_system(shift)], field_eom=lambda t, states, a: 0.0 * a)
                 mfs._field_eom = (lambda sh: (lambda t, states, a: f(t - sh, states[0][0, 1], a)))(shift)
+                u.take()
                 dyn = sd.compute_dynamics_with_field(mfs, initial_field=a0, dt=dt, num_steps=self.N, initial_state_list=[rho0],
                                                      start_time=start + shift, subdiv_limit=None, progress_type="silent")
+                traces.append(u.take())
                 out.append((list(dyn._times), list(dyn._fields), list(dyn._system_dynamics[0]._states)))
         (ta, fa, sa), (tb, fb, sb) = out
-        obs = [Ob.holds("same number of states", len(ta) == len(tb) == self.N + 1, key="len")]
+        obs = _trace_obs(*traces)
+        obs.append(Ob.holds("same number of states", len(ta) == len(tb) == self.N + 1, key="len"))
         for k in range(min(len(ta), len(tb))):
             obs.append(Ob.eq("times[%d] shifted by exactly tau" % k, tb[k], ta[k] + tau, key="times"))
             obs.append(Ob.eq("field %d unchanged" % k, fb[k], fa[k], key="fields"))
             obs.append(Ob.eq("state %d unchanged" % k, sb[k], sa[k], key="states"))
+        _assume_congruence(inp, *u.all())
         return obs
 
 
@@ -274,7 +345,7 @@ class MeanFieldTempoField(_Base):
 
     def run(self, inp):
         start, tau, dt = self.times(inp)
-        f = Opaque("eom", lambda t, r, a: (0.1 + 0.25 * t) * r - 0.5 * a, cplx=True)
+        f = Opaque("eom", lambda t, r, a: (0.1 + 0.25 * t) * r - 0.5 * a + 0.125 * t * t, cplx=True)
         s0 = inp.arr("s", (4,))
         s1 = inp.arr("n", (4,))
         a = inp.cplx("a")
@@ -294,6 +365,7 @@ class MeanFieldTempoField(_Base):
             obs += [Ob.eq("_time(%d) shifted by exactly tau" % k, tb, ta + tau, key="times"),
                     Ob.eq("_compute_field(%d) unchanged" % k, fb, fa, key="fields"),
                     Ob.eq("_compute_field_derivative(%d) unchanged" % k, db, da, key="fields")]
+        _assume_congruence(inp, f)
         return obs
 
 
@@ -458,7 +530,7 @@ class ParseTimes(_Base):
 
     def _call(self, times, dt, start):
         try:
-            return [int(i) for i in sd._parse_times(times, self.MAXSTEP, dt, start)]
+            return list(sd._parse_times(times, self.MAXSTEP, dt, start))       # SI entries stay symbolic
         except IndexError:
             return "IndexError"
 
@@ -473,7 +545,14 @@ class ParseTimes(_Base):
             else:
                 ra = self._call((t1, t2), dt, start)
                 rb = self._call((t1 + tau, t2 + tau), dt, start + tau)
-        return [Ob.holds("same steps selected (or IndexError in both runs)", ra == rb, key="selected", info="A=%s B=%s" % (ra, rb))]
+        both_err = isinstance(ra, str) and isinstance(rb, str)
+        same_kind = isinstance(ra, str) == isinstance(rb, str)
+        obs = [Ob.holds("IndexError in both runs or in neither", same_kind, key="selected", info="A=%s B=%s" % (ra, rb))]
+        if same_kind and not both_err:
+            obs.append(Ob.holds("same number of steps selected", len(ra) == len(rb), key="selected"))
+            if len(ra) == len(rb):
+                obs.append(Ob.eq("same steps selected", rb, ra, key="selected", info="A=%s B=%s" % (ra, rb)))
+        return obs
 
 
 # --------------------------------------------------------------------------
@@ -541,40 +620,21 @@ def cases(tier):
           ComputeDynamics(), ComputeDynamicsWithField(), MeanFieldTempoField(), TempoLayer("Tempo"), TempoLayer("MeanFieldTempo"),
           PtTebdTimes(), ControlTimes(1, 2), ParseTimes("float"), ParseTimes("interval"), ParseTimesFloat()]
     if tier == "thorough":
+        for c in cs:
+            # (compute_dynamics_with_field stays at N=2: with N=3 the satisfiability twin of the congruence side
+            #  conditions is already 'unknown' for nlsat)
+            if isinstance(c, (Propagators, FieldPropagators, ComputeDynamics, TempoLayer, PtTebdTimes)):
+                c.N = c.N + (1 if isinstance(c, ComputeDynamics) else 2)
+                c.bounds = dict(c.bounds, steps=c.N)
+            if isinstance(c, ParseTimes):
+                c.MAXSTEP = 6
+                c.bounds = {"max_step": 6}
+                c.max_paths = 4000
+            if isinstance(c, ParseTimesFloat):
+                c.validation_points, c.timeout_s, c.fp_timeout_s = 12, 600, 300
         cs += [ControlTimes(2, 3)]
     return cs
 
 
-def _worker(args):
-    idx, tier, seed = args
-    case = cases(tier)[idx]
-    verbose = os.environ.get("VF_VERBOSE")
-    if verbose:
-        print("[start] %s" % case.id, file=sys.stderr, flush=True)
-    if getattr(case, "is_fp", False):
-        r = fpx.execute_fp_case(PROP, case, tier, seed)
-    else:
-        r = core.execute_case(PROP, case, tier, seed)
-    if verbose:
-        print("[done ] %s %.1fs solver=%.1fs q=%d viol=%d err=%d inc=%d" % (
-            case.id, r["wall_s"], r["solver_s"], len(r["queries"]), len(r["violations"]), len(r["errors"]), len(r["inconclusive"])),
-            file=sys.stderr, flush=True)
-    return r
-
-
 def main(tier, seed, args):
-    t0 = time.time()
-    cs = cases(tier)
-    only = args.only
-    idx = [i for i, c in enumerate(cs) if only is None or any(o in c.id for o in only)]
-    jobs = args.jobs or min(16, max(1, len(idx)))
-    work = [(i, tier, seed) for i in idx]
-    if jobs == 1 or len(idx) <= 1:
-        results = [_worker(w) for w in work]
-    else:
-        results = []
-        with mp.get_context("fork").Pool(jobs, maxtasksperchild=1) as pool:
-            for r in pool.imap_unordered(_worker, work, chunksize=1):
-                results.append(r)
-    results.sort(key=lambda r: r["case"])
-    return core.finish(PROP, sys.modules[__name__], tier, seed, results, time.time() - t0)
+    return fpx.run_cases(PROP, sys.modules[__name__], tier, seed, args, hard_timeout_s=(300 if tier == "quick" else 1500))
